@@ -529,6 +529,7 @@ pub fn run(ctx: &Ctx) -> Outcome {
         // the same calls from a thread-local destructor while a thread exits (see exitprobe.rs)
         let mut at_exit = Report::new();
         crate::exitprobe::check("virtual_sign", MON, &mut at_exit);
+        crate::exitprobe::check_migration("virtual_sign", MON, &mut at_exit);
         report.merge(at_exit);
     }
     let cells = report.set_len("matrix_addressed_kind_x_bystander_state");
